@@ -777,9 +777,11 @@ class XPathToken(Token[ta.XPathTokenType]):
                     _item += timezone.offset
                 elif not isinstance(item, Date):
                     _item += timezone.offset - _tzinfo.offset
-                elif timezone.offset < _tzinfo.offset:
-                    _item -= timezone.offset - _tzinfo.offset
-                    _item -= DayTimeDuration.fromstring('P1D')
+                else:
+                    # the date of the starting instant of the day expressed in the new timezone
+                    dt = DateTime(item.year, item.month, item.day, tzinfo=_tzinfo)
+                    dt += timezone.offset  # type: ignore[assignment]
+                    _item = cls(dt.year, dt.month, dt.day)
         except OverflowError as err:
             if isinstance(context, XPathSchemaContext):
                 return _item
